@@ -10,7 +10,6 @@ package vrt
 import (
 	"fmt"
 	"runtime"
-	"strconv"
 	"strings"
 	"sync"
 	"sync/atomic"
@@ -87,19 +86,6 @@ var active atomic.Pointer[Sched]
 
 // Active returns the scheduler of the running execution, or nil.
 func Active() *Sched { return active.Load() }
-
-func goid() int64 {
-	var buf [64]byte
-	n := runtime.Stack(buf[:], false)
-	// "goroutine 123 ["
-	s := buf[10:n]
-	i := 0
-	for i < len(s) && s[i] != ' ' {
-		i++
-	}
-	id, _ := strconv.ParseInt(string(s[:i]), 10, 64)
-	return id
-}
 
 // NewSched creates a scheduler that first replays prefix (choice indexes) and then always takes choice 0.
 func NewSched(prefix []int) *Sched {
